@@ -2,10 +2,12 @@ package props
 
 import (
 	"fmt"
+	"github.com/nyaruka/goflow/flows"
 	"runtime/debug"
 	"sort"
 	"strings"
 	"unicode/utf8"
+	"verif/internal/drive"
 
 	"github.com/nyaruka/goflow/envs"
 	"github.com/nyaruka/goflow/excellent"
@@ -103,6 +105,13 @@ func (p *c04) specs(tier string) []c04spec {
 	for i := 0; i < nJSON; i++ {
 		sp = append(sp, c04spec{kind: "json", sample: 60})
 	}
+	nCtx := 300
+	if tier == "thorough" {
+		nCtx = 6000
+	}
+	for i := 0; i < nCtx; i++ {
+		sp = append(sp, c04spec{kind: "enginectx", sample: 40})
+	}
 	if tier == "thorough" {
 		p.specsThorough = sp
 	} else {
@@ -114,7 +123,7 @@ func (p *c04) specs(tier string) []c04spec {
 func (p *c04) NumGenerated(tier string) int { return len(p.specs(tier)) }
 
 func (p *c04) Directed() []string {
-	return []string{"probes", "doc-examples", "deep-nesting", "known-hang:round-places", "known-hang:json-exponent"}
+	return []string{"probes", "doc-examples", "deep-nesting", "known-hang:round-places", "known-hang:json-exponent", "engine-contexts"}
 }
 
 func (p *c04) CaseTimeouts(c fw.Case) (int, int) {
@@ -414,6 +423,19 @@ func (p *c04) Run(c fw.Case) fw.Result {
 				for k := range args {
 					args[k] = fw.Pick(r, pool)
 				}
+				// texts of every word count for the tests that look for a location among the words of a text
+				if (sp.fn == "has_state" || sp.fn == "has_district" || sp.fn == "has_ward") && i%3 == 0 {
+					n := r.Range(1, 100)
+					if r.Chance(0.5) {
+						n = r.Range(1, 24)
+					}
+					ws := make([]string, n)
+					for k := range ws {
+						ws[k] = fw.Pick(r, []string{"hi", "I", "would", "like", "parcel", "is", "where", "my", "Kigali", "Gasabo", "city", "Rwanda", "é", "12", "the", "Hill", "-", "a.b"})
+					}
+					args[0] = types.NewXText(strings.Join(ws, fw.Pick(r, []string{" ", " ", ", ", "  "})))
+					cr.res.Count("calls.direct_word_counts", 1)
+				}
 				// arguments that only mean something together are generated together for half the calls
 				if (sp.fn == "has_intent" || sp.fn == "has_top_intent") && sp.arity == 3 && i%2 == 0 {
 					args[0] = gen.ClassificationResult(r)
@@ -460,6 +482,8 @@ func (p *c04) Run(c fw.Case) fw.Result {
 		res.Fingerprint = "grammar:" + first
 		res.NonTrivial = res.Counters["reached_body"] > 0
 		res.Sample = map[string]any{"kind": "grammar", "first_template": first, "templates": sp.sample}
+	case "enginectx":
+		p.engineContexts(c, cr, r, sp.sample, &res)
 	case "json":
 		first := ""
 		for i := 0; i < sp.sample; i++ {
@@ -565,6 +589,44 @@ var jsonHangKnown = func() bool {
 
 func (p *c04) directed(c fw.Case, cr *c04run, r *fw.Rand) {
 	switch c.Directed {
+	case "engine-contexts":
+		// a webhook of every kind of answer saved as a result, the session re-read at the wait (which recreates @webhook from
+		// the result), and every context walker evaluated in the run before and after
+		c8 := fw.Lookup("C08").(*c08)
+		for _, name := range c8.Directed() {
+			if !strings.HasPrefix(name, "reread-webhook-") && !strings.HasPrefix(name, "json-value-readers") {
+				continue
+			}
+			scen := c8.directed(name)
+			rn, err := drive.Load(scen, c.Seed)
+			if err != nil {
+				continue
+			}
+			rn.RunAll(func(rec *drive.CallRecord) {
+				if !rec.OK() || rn.Session == nil {
+					return
+				}
+				if rn.Waiting() {
+					rn.Restart()
+				}
+				st := rn.Src.Snapshot()
+				for _, run := range rn.Session.Runs() {
+					if run.Flow() == nil || len(run.Path()) == 0 {
+						continue
+					}
+					for _, t := range c04ContextWalkers {
+						tpl := t
+						cr.guard("template-in-run", "template-in-run:"+name+":"+tpl, func() {
+							cr.res.Count("calls.template_in_run", 1)
+							run.EvaluateTemplate(tpl, func(flows.Event) {})
+							v, _ := run.EvaluateTemplateValue(tpl, func(flows.Event) {})
+							cr.use(v)
+						})
+					}
+				}
+				rn.Src.Restore(st)
+			})
+		}
 	case "probes":
 		for _, t := range []string{
 			`@(mod(5, 0))`, `@(mod(5.5, 0.0))`, `@(5 / 0)`, `@(0 ^ -1)`, `@(0 ^ 0)`, `@((-8) ^ 0.5)`, `@(1 ^ 2147483647)`, `@(char(-1))`, `@(char(1114112))`,
@@ -644,5 +706,63 @@ func (p *c04) directed(c fw.Case, cr *c04run, r *fw.Rand) {
 				})
 			}
 		}
+	}
+}
+
+// engineContexts: the evaluator is total over the contexts the engine really builds — lazily, from whatever the session
+// holds at that moment (a webhook recreated from a result's extra after a re-read, results of every shape, parent and
+// child runs, tickets, inputs of every resume type). One generated scenario is run with the session re-read at every
+// wait; after every engine call, for every run, context-walking templates and hostile generated templates are evaluated
+// through the run.
+var c04ContextWalkers = []string{"@webhook", "@webhook.json", "@(json(webhook))", "@(webhook.json)", "@webhook.status @webhook.headers", "@legacy_extra", "@(json(legacy_extra))",
+	"@(json(contact))", "@(json(run))", "@(json(parent))", "@(json(child))", "@(json(results))", "@(json(input))", "@(json(trigger))", "@(json(resume))", "@(json(ticket))", "@(json(node))",
+	"@(json(urns))", "@(json(fields))", "@(json(globals))", "@contact @run @parent @child @input @trigger @resume @ticket @node @urns @fields @globals @results",
+	"@(foreach(keys(results), (k) => results[k].extra))", "@(format(parent.contact)) @(format(child.run))", "@(count(run.path)) @run.path", "@trigger.params @(json(trigger.params))"}
+
+func (p *c04) engineContexts(c fw.Case, cr *c04run, r *fw.Rand, sample int, res *fw.Result) {
+	scen := gen.Scen(r, gen.ScenOpts{MaxNodes: r.Range(2, 6), Deterministic: true, ContactChanges: r.Chance(0.3), Localized: r.Chance(0.2)})
+	res.Fingerprint = "enginectx:" + scen.Fingerprint()
+	rn, err := drive.Load(scen, c.Seed)
+	if err != nil {
+		res.Discarded = "unloadable: " + errClass(err.Error())
+		return
+	}
+	tpls := append([]string{}, c04ContextWalkers...)
+	for i := 0; i < sample; i++ {
+		tpls = append(tpls, gen.Template(r, gen.ExprOpts{Hostile: true, MaxDepth: r.Range(1, 3), Deterministic: true}))
+	}
+	evals := 0
+	rn.RunAll(func(rec *drive.CallRecord) {
+		if !rec.OK() || rn.Session == nil {
+			return
+		}
+		if rn.Waiting() {
+			if rn.Restart() == nil {
+				res.Count("enginectx.rereads", 1)
+			}
+		}
+		st := rn.Src.Snapshot()
+		for _, run := range rn.Session.Runs() {
+			if run.Flow() == nil || len(run.Path()) == 0 {
+				continue // (the engine itself never evaluates in such a run)
+			}
+			for _, t := range tpls {
+				tpl := t
+				cr.guard("template-in-run", "template-in-run:"+tpl, func() {
+					cr.res.Count("calls.template_in_run", 1)
+					out, _ := run.EvaluateTemplate(tpl, func(flows.Event) {})
+					_ = out
+					v, _ := run.EvaluateTemplateValue(tpl, func(flows.Event) {})
+					cr.use(v)
+					evals++
+				})
+			}
+		}
+		rn.Src.Restore(st)
+	})
+	res.NonTrivial = evals > 0
+	if res.NonTrivial {
+		res.Count("reached_body", int64(evals))
+		res.Sample = map[string]any{"kind": "enginectx", "graph": graphShape(scen), "templates_per_run": len(tpls), "evaluations": evals}
 	}
 }
